@@ -270,9 +270,11 @@ class LiteralProvider(LoaderProvider, DumperProvider):
         bytes_cases: Sequence[bytes],
         bytes_loader: Loader[bytes],
     ) -> Loader:
-        if strict_coercion and any(isinstance(arg, bool) or _is_exact_zero_or_one(arg) for arg in cases):
+        # enum members are loaded only via enum loaders, member of enum with mixin is equal to its value
+        basic_cases = [case for case in cases if not isinstance(case, Enum)]
+        if strict_coercion and any(isinstance(arg, bool) or _is_exact_zero_or_one(arg) for arg in basic_cases):
             allowed_values_with_types = self._get_allowed_values_collection(
-                [(type(el), el) for el in cases],
+                [(type(el), el) for el in basic_cases],
             )
 
             # since True == 1 and False == 0
@@ -288,10 +290,11 @@ class LiteralProvider(LoaderProvider, DumperProvider):
             allowed_values = self._get_allowed_values_collection(cases)
         else:
             allowed_values = self._get_allowed_values_collection(cases)
+            basic_allowed_values = self._get_allowed_values_collection(basic_cases)
 
             def literal_loader(data):
                 try:
-                    if data in allowed_values:
+                    if data in basic_allowed_values:
                         return data
                 except (TypeError, ArithmeticError):  # unhashable or incomparable (like Decimal('sNaN')) data can not be a member
                     pass
